@@ -554,6 +554,9 @@ func TestWorker(t *testing.T) {
 		if k.cpuSettles > 0 {
 			out.Fired["clock:cpu-time-charged"] = int(k.cpuSettles)
 		}
+		if k.logStalls > 0 {
+			out.Fired["sink:"+p.Sink+":write-held-up"] = int(k.logStalls)
+		}
 		if k.stallIdx > 0 {
 			out.Fired["clock:stall"] = k.stallIdx
 		}
